@@ -316,6 +316,59 @@ impl<'a> Encoder<'a> {
 //@ END
 }
 
+
+impl BinaryIndexBuilder {
+    #[verifier::external_body]
+    fn new(capacity: usize) -> (r: Self) ensures r.ptrs == Seq::<u32>::empty() { unimplemented!() }
+}
+impl HashIndexBuilder {
+    #[verifier::external_body]
+    fn with_hash_ratio(item_count: usize, hash_ratio: f32) -> (r: Self) ensures r.sets == Seq::<(Seq<u8>, u8)>::empty() { unimplemented!() }
+}
+impl<'a> Encoder<'a> {
+//@ FROM src/table/block/encoder.rs :: impl < 'a , Context : Default , Item : Encodable < Context > > Encoder < 'a , Context , Item > :: fn new :: OBL C12.17
+//@ SUBST `phantom : PhantomData ,` ==> ``
+//@ SUBST `Context :: default ( )` ==> `()`
+    fn new(
+        writer: &'a mut Vec<u8>,
+        item_count: usize,
+        restart_interval: u8, // TODO: should be NonZero
+        hash_index_ratio: f32,
+        first_key: &'a [u8],
+    ) -> /*+*/(r:/*-*/ Self/*+*/)
+        requires restart_interval >= 1   // 0 divides by zero here
+        ensures r.writer@ == old(writer)@, *final(r.writer) == *final(writer), r.item_count == 0, r.restart_count == 0, r.restart_interval == restart_interval,
+            r.base_key@ == first_key@, r.binary_index_builder.ptrs.len() == 0, r.hash_index_builder.sets.len() == 0/*-*/
+    {
+        let binary_index_builder = BinaryIndexBuilder::new(item_count / restart_interval as usize);
+        let hash_index_builder = HashIndexBuilder::with_hash_ratio(item_count, hash_index_ratio);
+
+        Self {
+
+            writer,
+
+            state: (),
+
+            item_count: 0,
+            restart_count: 0,
+
+            restart_interval,
+            // use_prefix_truncation: true,
+            binary_index_builder,
+            hash_index_builder,
+
+            base_key: first_key,
+        }
+    }
+//@ END
+
+    /// Encoder::finish = Trailer::write(self) (unit block_trailer): the trailer start marker, then index sections and trailer
+    #[verifier::external_body]
+    fn finish(self) -> (r: Result<(), Error>)
+        ensures r is Ok ==> exists|rest: Seq<u8>| (*final(self.writer))@ == (*old(self.writer))@ + seq![TRAILER_START_MARKER] + rest
+    { unimplemented!() }
+}
+
 // ---------------- decoder side ----------------
 const TRAILER_START_MARKER: u8 = 255;
 /// std::io::Cursor<&[u8]> with byteorder / varint_rs readers (TRUSTED): an in-memory reader, so a read succeeds exactly when the
@@ -756,6 +809,29 @@ proof fn lemma_skip_sub(d: Seq<u8>, o: int, a: int, b: int)
     ensures d.skip(o).subrange(a - o, b - o) == d.subrange(a, b), b <= d.len()
 { assert(d.skip(o).subrange(a - o, b - o) =~= d.subrange(a, b)); }
 
+/// what parse_full / parse_truncated report about the bytes after offset o is what item_is says about the whole payload
+proof fn lemma_item_is(d: Seq<u8>, o: int, it: DataBlockParsedItem, e: InternalValue, hk: Seq<u8>, bko: Option<usize>, shared: int, is_restart: bool)
+    requires 0 <= o <= d.len(),
+        item_matches(it, e, d.skip(o), o, if is_restart { 0 } else { shared }),
+        is_restart ==> it.prefix is None,
+        !is_restart ==> bko is Some && it.prefix == Some(SliceIndexes(bko->Some_0, (bko->Some_0 + shared) as usize)) && bko->Some_0 + hk.len() <= d.len() && bko->Some_0 + shared <= usize::MAX
+            && d.subrange(bko->Some_0 as int, bko->Some_0 + hk.len()) == hk && 0 <= shared <= hk.len() && shared <= ukey(e).len() && hk.subrange(0, shared) == ukey(e).subrange(0, shared),
+    ensures item_is(it, e, d)
+{
+    let k = ukey(e);
+    let sh = if is_restart { 0 } else { shared };
+    lemma_skip_sub(d, o, it.key.0 as int, it.key.1 as int);
+    if it.value is Some { lemma_skip_sub(d, o, it.value->Some_0.0 as int, it.value->Some_0.1 as int); }
+    assert(k.subrange(0, sh) + k.skip(sh) =~= k);
+    if !is_restart {
+        let kp = bko->Some_0 as int;
+        assert(d.subrange(kp, kp + sh) =~= d.subrange(kp, kp + hk.len()).subrange(0, sh));
+    } else {
+        assert(k.skip(0) =~= k);
+        assert(Seq::<u8>::empty() + d.subrange(it.key.0 as int, it.key.1 as int) =~= d.subrange(it.key.0 as int, it.key.1 as int));
+    }
+}
+
 impl<'a> Decoder<'a> {
 //@ FROM src/table/block/decoder.rs :: impl < Item : Decodable < Parsed > , Parsed : ParsedItem < Item > > Iterator for Decoder < '_ , Item , Parsed > :: fn next :: OBL C12.17
 //@ SUBST `Self :: Item` ==> `DataBlockParsedItem`
@@ -814,21 +890,79 @@ impl<'a> Decoder<'a> {
 
         /*+*/proof {
             if i < items.len() {
-                let it = item->Some_0; let e = items[i]; let k = ukey(e);
-                let sh = if is_restart { 0 } else { shared };
-                lemma_skip_sub(d, o, it.key.0 as int, it.key.1 as int);
-                if it.value is Some { lemma_skip_sub(d, o, it.value->Some_0.0 as int, it.value->Some_0.1 as int); }
-                assert(k.subrange(0, sh) + k.skip(sh) =~= k);
-                if !is_restart {
-                    let kp = old(self).lo_scanner.base_key_offset->Some_0 as int;
-                    assert(d.subrange(kp, kp + sh) =~= d.subrange(kp, kp + hk.len()).subrange(0, sh));
-                } else {
-                    assert(k.skip(0) =~= k);
-                    assert(Seq::<u8>::empty() + d.subrange(it.key.0 as int, it.key.1 as int) =~= d.subrange(it.key.0 as int, it.key.1 as int));
-                }
+                lemma_item_is(d, o, item->Some_0, items[i], hk, old(self).lo_scanner.base_key_offset, shared, is_restart);
             }
         }/*-*/
         item
+    }
+//@ END
+}
+
+struct DataBlock { inner: Block }
+proof fn lemma_body_mono(items: Seq<InternalValue>, k: int, n: int, ri: int)
+    requires 0 <= k <= n
+    ensures body(items, k, ri).len() <= body(items, n, ri).len()
+    decreases n - k
+{ if k < n { lemma_body_mono(items, k, n - 1, ri); } }
+impl DataBlock {
+//@ FROM src/table/data_block/mod.rs :: impl DataBlock :: fn encode_into :: OBL C12.17
+//@ SUBST `Encoder :: < '_ , ( ) , InternalValue > :: new` ==> `Encoder::new`
+//@ SUBST `. key . user_key ;` ==> `.key.user_key.as_bytes();`
+//@ SUBST `for item in items` ==> `for item in items.iter()`
+    fn encode_into(
+        writer: &mut Vec<u8>,
+        items: &[InternalValue],
+        restart_interval: u8,
+        hash_index_ratio: f32,
+    ) -> /*+*/(r:/*-*/ Result<(), Error>/*+*/)
+        requires items@.len() > 0, restart_interval >= 1, forall|i: int| 0 <= i < items@.len() ==> fits(#[trigger] items@[i]),
+            // 'blocks do not even come close to 4 GiB in size'
+            old(writer)@.len() + body(items@, items@.len() as int, restart_interval as int).len() <= u32::MAX,
+        ensures
+            // the payload is laid out exactly as the decoder's forward scan expects it
+            r is Ok ==> exists|rest: Seq<u8>| final(writer)@ == old(writer)@ + body(items@, items@.len() as int, restart_interval as int) + seq![TRAILER_START_MARKER] + rest/*-*/
+    {
+        /*+*/let ghost ri = restart_interval as int; let ghost w0 = writer@; let ghost fw = *final(writer);/*-*/
+        let first_key = &items
+            .first()
+            .expect("chunk should not be empty")
+            .key.user_key.as_bytes();
+
+        let mut serializer = Encoder::new(
+            writer,
+            items.len(),
+            restart_interval,
+            hash_index_ratio,
+            first_key,
+        );
+
+        for item in /*+*/it__:/*-*/ items.iter()
+            /*+*/invariant it__.seq().len() == items@.len(), items@.len() <= usize::MAX, forall|k: int| 0 <= k < items@.len() ==> *(#[trigger] it__.seq()[k]) == items@[k], ri == restart_interval as int, ri >= 1, w0 == old(writer)@,
+                forall|i: int| 0 <= i < items@.len() ==> fits(#[trigger] items@[i]),
+                w0.len() + body(items@, items@.len() as int, ri).len() <= u32::MAX,
+                *final(serializer.writer) == fw,
+                serializer.item_count == it__.index@, serializer.restart_interval == restart_interval,
+                serializer.restart_count <= serializer.item_count, serializer.item_count > 0 ==> serializer.restart_count > 0,
+                serializer.writer@ == w0 + body(items@, it__.index@, ri),
+                it__.index@ % ri != 0 ==> serializer.base_key@ == ukey(items@[base_of(it__.index@, ri)]),/*-*/
+        {
+            /*+*/proof {
+                lemma_body_mono(items@, it__.index@ as int, items@.len() as int, ri);
+                assert(0 <= it__.index@ < items@.len());
+                assert(*item == items@[it__.index@ as int]);
+                assert(fits(*item));
+                assert(serializer.item_count < usize::MAX);
+                assert(serializer.restart_count < usize::MAX);
+                assert(serializer.writer@.len() == w0.len() + body(items@, it__.index@ as int, ri).len());
+                assert(serializer.writer@.len() <= u32::MAX);
+                lemma_body_mono(items@, it__.index@ as int, items@.len() as int, ri);
+                lemma_mod_step(it__.index@ as int, ri);
+                assert(w0 + body(items@, it__.index@ + 1, ri) =~= (w0 + body(items@, it__.index@, ri)) + code(items@, it__.index@, ri));
+            }/*-*/
+            serializer.write(item)?;
+        }
+
+        serializer.finish()
     }
 //@ END
 }
